@@ -27,7 +27,8 @@ mut("lt-is-le", "core/array.py", "return _binary_op(np.less, self, other)", "ret
 mut("and-is-or", "core/array.py", "return _binary_op(np.logical_and, self, other)", "return _binary_op(np.logical_or, self, other)", ["C07"])
 mut("power-not-in-apply", "core/array.py", '    "power",\n', "", ["C02", "C10"])
 mut("strict-no-conversion", "core/array.py", "    if strict:\n        rhs = rhs.to(lhs.unit)\n", "    if strict:\n        pass\n", ["C02", "C07"])
-mut("swallow-all-errors", "core/array.py", "        except DimensionalityError:\n            pass", "        except Exception:\n            pass", ["C02"])
+# (removed) swallow-all-errors: `except Exception` around the non-strict conversion changes behaviour only for an error other than
+# DimensionalityError raised by pint, which no operand in the property's quantifier produces: not decided, not a mutant.
 mut("strict-swallows", "core/array.py", "    if strict:\n        rhs = rhs.to(lhs.unit)\n    else:", "    if strict:\n        try:\n            rhs = rhs.to(lhs.unit)\n        except DimensionalityError:\n            pass\n    else:", ["C02", "C07"])
 mut("op-operands-swapped", "core/array.py", "    return op(lhs, rhs, **kwargs)", "    return op(rhs, lhs, **kwargs)", ["C02", "C07"])
 mut("to-inverse-ratio", "core/array.py", "ratio = (1.0 * self.unit).to(new_unit) / (1.0 * new_unit)", "ratio = (1.0 * new_unit).to(self.unit) / (1.0 * self.unit)", ["C02", "C08"])
